@@ -1,13 +1,36 @@
-import Rooc.Wire
-import Rooc.Oracle
+import Rooc.WireModel
+import Rooc.Builder
+import Rooc.Drv.C03
 namespace Rooc.Drv.C16
-open Rooc Sexp
+open Rooc Sexp Builder
 
-/-- model requests for C16 (run at `Float` for the exact diff, at `Ext Rat` as oracle). -/
+def decVars {α : Type} [Wire α] : Sexp → Option (List (String × VarType α))
+  | .list (.atom "bvars" :: vs) => optAll (vs.map fun
+      | .list [.str n, t] => do pure (n, ← VarType.dec t)
+      | _ => none)
+  | _ => none
+
 def handle (α : Type) [Arith α] [Wire α] : List Sexp → Sexp
+  | [.atom "eval-expr", e, .list (.atom "vals" :: vs)] =>
+    match (Exp.dec e : Option (Exp α)), (optAll (vs.map decNumS) : Option (List α)) with
+    | some e, some vals => app "ok" [encNum (evalExpr (fun i => vals.getD i Arith.zero) e)]
+    | _, _ => app "err" [.atom "decode"]
+  | [.atom "into-model", vars, .list (.atom "constraints" :: cs), obj] =>
+    match (decVars vars : Option (List (String × VarType α))), (optAll (cs.map Constraint.dec) : Option (List (Constraint α))) with
+    | some vars, some cs =>
+      let objective : Option (Option (OptType × Exp α)) := match obj with
+        | .list [.atom "none"] => some none
+        | .list [.atom ot, e] => do pure (some (← OptType.ofName ot, ← Exp.dec e))
+        | _ => none
+      match objective with
+      | none => app "err" [.atom "decode"]
+      | some o =>
+        match intoModel { vars := vars, constraints := cs, objective := o } with
+        | some m => app "ok" [m.enc]
+        | none => app "err" [.atom "index-out-of-range"]
+    | _, _ => app "err" [.atom "decode"]
   | _ => app "err" [.atom "bad-request"]
 
-/-- exact oracle: the PROPERTY evaluated on the implementation's own answer. -/
-def oracle : List Sexp → Sexp
-  | _ => app "err" [.atom "bad-request"]
+/-- end-to-end answers of any door are judged by the reference interpreter of C03. -/
+def oracle : List Sexp → Sexp := Drv.C03.oracle
 end Rooc.Drv.C16
